@@ -324,12 +324,28 @@ fn composites(b: &RistrettoPoint, c: &RistrettoPoint, d: &RistrettoPoint) -> (Ri
   let di = h2s(&ct, "Composite");
   (di * c, di * d)
 }
+/// challenge over the elements selected by `mask` (bits 0..4 = B, M, Z, t2, t3), in one of the encoding
+/// variants of the calibration family: variant bit 0 = without the 2-byte length prefixes, bits 1..2 =
+/// zero padding of the transcript to 0 / 160 / 170 bytes (a buffer pre-sized for five points)
 fn challenge_subset(pts: &[RistrettoPoint; 5], mask: u32) -> Scalar {
+  let variant = mask >> 8;
   let mut t = vec![];
   for (i, p) in pts.iter().enumerate() {
     if mask >> i & 1 == 1 {
-      lp(&mut t, p);
+      if variant & 1 == 0 {
+        lp(&mut t, p);
+      } else {
+        t.extend_from_slice(p.compress().as_bytes());
+      }
     }
+  }
+  let pad_to = match variant >> 1 {
+    1 => 160,
+    2 => 170,
+    _ => 0,
+  };
+  if t.len() < pad_to {
+    t.resize(pad_to, 0);
   }
   h2s(&t, "Challenge")
 }
@@ -360,7 +376,9 @@ fn run_forgery(cx: &mut CaseCx, _case: &Value) {
   let t3 = s0 * m + c0 * z;
   let pts = [b_pt, m, z, t2, t3];
   cx.eval();
-  let bound: Option<u32> = (1..32u32).rev().find(|&mask| challenge_subset(&pts, mask) == c0);
+  // documented transcript first (all five, with prefixes, no padding), then the rest of the family
+  let family: Vec<u32> = (0..6u32).flat_map(|variant| (1..32u32).rev().map(move |m| m | variant << 8)).collect();
+  let bound: Option<u32> = family.into_iter().find(|&mask| challenge_subset(&pts, mask) == c0);
   let names = ["public value", "composite M", "composite Z", "commitment t2", "commitment t3"];
   let mask = match bound {
     None => {
@@ -372,7 +390,7 @@ fn run_forgery(cx: &mut CaseCx, _case: &Value) {
   };
   cx.count("transcript_calibrated", 1);
   cx.outcome(format!("challenge binds {:?}", (0..5).filter(|i| mask >> i & 1 == 1).map(|i| names[i]).collect::<Vec<_>>()));
-  if mask == 31 {
+  if mask & 31 == 31 {
     cx.count("challenge_binds_all_five", 1);
     cx.nontrivial(31);
     cx.sample(json!({"challenge_binds": names}));
@@ -455,7 +473,7 @@ pub fn spec() -> PropSpec {
       },
       Check {
         name: "forged-proofs",
-        rule: "adversarial synthesis: a replica of the challenge transcript is calibrated on honest proofs (which of public value, M, Z, t2, t3 does the real challenge bind?); with the server's tagged key (export + hook) the harness builds proofs for an output computed under key+1 by the two Schnorr strategies that succeed iff t3 resp. t2 is unbound, and hands them to the real Client::verify: must be rejected",
+        rule: "adversarial synthesis: a replica of the challenge transcript is calibrated on honest proofs (which of public value, M, Z, t2, t3 does the real challenge bind? 31 subsets x {with/without length prefixes} x {no padding, zero-padded to 160/170 bytes}); with the server's tagged key (export + hook) the harness builds proofs for an output computed under key+1 by the two Schnorr strategies that succeed iff t3 resp. t2 is unbound, and hands them to the real Client::verify: must be rejected",
         gen: |_| vec![json!({})],
         run: run_forgery,
         min_counts: &[],
